@@ -50,7 +50,7 @@ def run_case(case):
     rng = core.rng_for(case["seed"], ID, case["idx"])
     # (two of three programs carry two helpers made by one factory: one code object, different defaults)
     prog = progs.gen_program(rng, "vp3_%d_%d" % (case["seed"], case["idx"]), n=rng.randint(4, 7), p_explicit=0.1,
-                             p_factory=1.0 if case["idx"] % 3 else 0.3)
+                             p_factory=1.0 if case["idx"] % 3 else 0.3, p_diamond=0.8, min_memento=4 if case["idx"] % 2 else 2)
     # every program carries at least one set constant (the hash-seed sensitive feature)
     if not any(nd["sconst"] for nd in prog["nodes"]):
         prog["nodes"][0]["sconst"] = ["alpha", "beta", "gamma", "delta"]
